@@ -432,8 +432,8 @@ static void handle(const Tok& t) {
 		std::printf("\n");
 	}
 	else if (c == "NUM") { if (t.at(3) == "f") cmdNum<float>(t); else cmdNum<double>(t); }
-	else if (c == "TRAIN") { if (t.at(13) == "f") cmdTrain<float>(t); else cmdTrain<double>(t); }
-	else if (c == "RAW") { if (t.at(13) == "f") cmdRaw<float>(t); else cmdRaw<double>(t); }
+	else if (c == "TRAIN") { if (t.at(12) == "f") cmdTrain<float>(t); else cmdTrain<double>(t); }
+	else if (c == "RAW") { if (t.at(12) == "f") cmdRaw<float>(t); else cmdRaw<double>(t); }
 	else if (c == "LIN") cmdLin(t);
 	else if (c == "STEPS") cmdSteps(t);
 	else std::printf("UNKNOWN %s\n", c.c_str());
